@@ -27,6 +27,7 @@ func init() {
 		"Decides the shape that the piecewise-linear function's range, clamping and neighbour selection depend on. NewFunc: fewer than two dots, X[i] <= previous X for i >= 1 (the previous X is recorded at the end of every iteration, after the test), Y > maxVal and X > maxVal each lead only to a panic, are evaluated for every dot of a complete range over the argument, and the returned closure is Func{dots: argument}.Get behind all of them. "+
 			"Constants (exact, go/constant): DecimalUnit is a positive integer, maxVal*DecimalUnit <= MaxUint64; Mul is a*b/DecimalUnit and Div is a*DecimalUnit/b on uint64, so with coordinates <= maxVal (NewFunc) and weights <= DecimalUnit the three products of Get (Div's a*DecimalUnit, Mul's a*b twice) are at most maxVal*DecimalUnit and cannot wrap. "+
 			"Get: x below (or at) the first dot's X returns only the first dot's Y, x above (or at) the last dot's X only the last dot's Y, and the interpolation is reachable only behind both complementary edges; the piece index starts at len-2, is replaced by i-1 at the first i of a forward range over all dots with X[i] > x (then the loop is left), every earlier iteration evaluates that test; the result is Mul(Y[p], DecimalUnit-r) + Mul(Y[p+1], r) with r = Div(x-X[p], X[p+1]-X[p]) for that index p (neighbouring dots, weights summing to DecimalUnit). "+
+			"Loops are read as iterations (core.IterationOf): a range or a counted loop stepping by one; NewFunc's per-dot rows need index 0..len-1 (the neighbour comparison X[i] <= X[i-1] may start at 1), Get's search needs every inner index 1..len-2 in ascending order; single-definition temporaries are substituted. "+
 			"Not decided: the numeric rounding bounds of the statement (at most the larger Y, at least the smaller minus one, within |dY|/10^6+2 of the exact value) - they follow from the decided shape by a pen-and-paper argument (two floor divisions lose less than 1 each, r loses less than one unit of 10^-6) that the checker does not perform; r <= DecimalUnit (no underflow of DecimalUnit-r) relies on x <= X[p+1], which follows from the decided search shape and the upper clamp but is not derived mechanically; the caller mutating the dots slice after NewFunc.",
 		[]string{"uint64 arithmetic wraps only when a product exceeds MaxUint64 (Go spec)", "the caller does not modify the dots slice after NewFunc"},
 		runC31)
@@ -64,8 +65,21 @@ func c31New(f *core.FuncInfo) *c31Ctx {
 		if _, ok := a.Stmt.(*ast.RangeStmt); ok {
 			continue
 		}
-		// the definition may be substituted at its uses only if nothing it reads is assigned afterwards
+		// the definition may be substituted at its uses only if nothing it reads is assigned between the
+		// definition and a use: no use is reachable from such an assignment without passing the
+		// definition again (so `dot := dots[i]` inside a counted loop is transparent although i++ follows)
 		safe := true
+		var uses []core.Point
+		f.InspectOwn(func(n ast.Node) bool {
+			if id, ok := n.(*ast.Ident); ok && f.Info().Uses[id] == types.Object(v) {
+				if pt, ok := f.PointOf(id); ok {
+					uses = append(uses, pt)
+				} else {
+					safe = false
+				}
+			}
+			return true
+		})
 		ast.Inspect(a.RHS, func(n ast.Node) bool {
 			id, ok := n.(*ast.Ident)
 			if !ok {
@@ -76,7 +90,14 @@ func c31New(f *core.FuncInfo) *c31Ctx {
 				return true
 			}
 			for _, a2 := range all {
-				if varOf(f, a2.LHS) == w && (a2.Pt == a.Pt || f.CanReach(a.Pt, a2.Pt)) {
+				if varOf(f, a2.LHS) != w {
+					continue
+				}
+				if a2.Pt == a.Pt {
+					safe = false
+					continue
+				}
+				if _, found := (core.PathQuery{F: f, From: a2.Pt, FromAfter: true, Target: core.PointSet(uses...), Avoid: core.PointSet(a.Pt)}).Find(); found {
 					safe = false
 				}
 			}
@@ -376,24 +397,19 @@ func runC31(c *core.Ctx) {
 		c.Need(dotsP != nil, "NewFunc has a named dots parameter")
 		x := c31New(f)
 		x.isDots = func(e ast.Expr) bool { return varOf(f, ast.Unparen(e)) == dotsP }
-		var loop *ast.RangeStmt
-		nLoops := 0
-		f.InspectOwn(func(n ast.Node) bool {
-			if rs, ok := n.(*ast.RangeStmt); ok && rs.Tok == token.DEFINE && x.isDots(rs.X) {
-				loop = rs
-				nLoops++
+		// the validation loop: an iteration over the dots argument, written as a range or as a counted loop
+		its := c13Loops(f, func(coll ast.Expr) string {
+			if x.isDots(coll) {
+				return "events"
 			}
-			return true
+			return ""
 		})
-		c.Need(nLoops == 1 && loop.Key != nil, "exactly one range over the dots argument with an index variable")
-		key := varOf(f, loop.Key)
-		c.Need(key != nil, "named index variable of the range over dots")
+		c.Need(len(its) == 1 && its[0].key != nil, "exactly one loop over the dots argument (range or counted up to len(dots)) with an index variable")
+		it := its[0]
+		loop, key, val := it.stmt, it.key, it.val
 		x.roles[key] = "i"
-		var val *types.Var
-		if loop.Value != nil {
-			if val = varOf(f, loop.Value); val != nil {
-				x.elem[val] = "i"
-			}
+		if val != nil {
+			x.elem[val] = "i"
 		}
 		// the remembered previous X
 		var prev *types.Var
@@ -405,15 +421,17 @@ func runC31(c *core.Ctx) {
 			if v == nil || v == key || v == val || a.RHS == nil || c13IsRange(a.Stmt) {
 				continue
 			}
-			if loop.Body.Pos() <= a.Stmt.Pos() && a.Stmt.End() <= loop.Body.End() && v.Pos() < loop.Pos() && x.canon(a.RHS) == c31Form("0", "+X[i]") {
+			if it.contains(a.Stmt) && v.Pos() < loop.Pos() && x.canon(a.RHS) == c31Form("0", "+X[i]") {
 				prev, prevSet = v, a
 			}
 		}
-		c.Need(prev != nil, "a variable declared before the loop that records the current dot's X inside it")
-		delete(x.defs, prev)
-		x.roles[prev] = "prev"
-		env := &c13Env{f: f, vars: map[*types.Var]string{}, used: map[*ast.RangeStmt]bool{}, alias: map[*types.Var]bool{}, custom: x.name}
-		env.loops = []*c13Loop{{stmt: loop, kind: "events", key: key, val: val}}
+		// (without such a variable the test must compare the neighbouring dots directly: X[i] <= X[i-1])
+		if prev != nil {
+			delete(x.defs, prev)
+			x.roles[prev] = "prev"
+		}
+		env := &c13Env{f: f, vars: map[*types.Var]string{}, used: map[ast.Stmt]bool{}, alias: map[*types.Var]bool{}, custom: x.name}
+		env.loops = its
 		env.retMsg = "is not the method value Func{dots: <the argument>}.Get: the returned function does not evaluate the validated dot list"
 		// the returned closure
 		var rets []c13Ret
@@ -443,10 +461,21 @@ func runC31(c *core.Ctx) {
 			}
 			rets = append(rets, ret)
 		}
-		mono := c31Le("0", "+X[i]", "-prev")
+		// X[i] <= X of the previous dot, for every i >= 1: the previous X is either the recorded variable
+		// (loop from 0, test conditioned on i >= 1) or dots[i-1].X itself (conditioned on i >= 1, or in a
+		// loop that starts at index 1)
+		mono, monoIdx := c31Le("0", "+X[i]", "-prev"), c31Le("0", "+X[i]", "-X[i-1]")
+		iGE1, iNE0 := c31Le("1", "-i"), c13Not(c31Form("0", "+i")+" == 0")
+		monoAlts := []string{c13And(iGE1, monoIdx), c13And(iNE0, monoIdx)}
+		if prev != nil && it.from == 0 {
+			monoAlts = append(monoAlts, c13And(iGE1, mono), c13And(iNE0, mono))
+		}
+		if it.from == 1 {
+			monoAlts = append(monoAlts, monoIdx)
+		}
 		rows := []c13Row{
 			{name: "fewer than two dots", tag: "guard", alts: []string{c31Le("-1", "+ndots")}, breaks: "a list with fewer than two dots is accepted; Get then indexes dots[len-2] out of range"},
-			{name: "X not strictly increasing", tag: "guard", loop: true, alts: []string{c13And(c31Le("1", "-i"), mono), c13And(c13Not(c31Form("0", "+i")+" == 0"), mono)},
+			{name: "X not strictly increasing", tag: "guard", loop: true, fromOne: true, alts: monoAlts,
 				breaks: "a list whose X values repeat or decrease is accepted (Get then divides by x1-x0 = 0 or a wrapped difference), or a valid list is rejected because the first dot is compared with the initial value"},
 			{name: "Y above maxVal", tag: "guard", loop: true, alts: []string{c31Le(maxPlus1, "-Y[i]")}, breaks: "a Y above the supported range is accepted: y*weight in Mul can exceed MaxUint64"},
 			{name: "X above maxVal", tag: "guard", loop: true, alts: []string{c31Le(maxPlus1, "-X[i]")}, breaks: "an X above the supported range is accepted: (x-x0)*DecimalUnit in Div can exceed MaxUint64"},
@@ -467,9 +496,18 @@ func runC31(c *core.Ctx) {
 		}
 		c.ExpectAtLeast("returns of Func{dots}.Get", nAcc, 1)
 		// prev holds the previous dot's X when the monotonicity test runs
+		usesPrev := false
+		for _, e := range r.rowHit["X not strictly increasing"] {
+			for _, a := range e.alts {
+				usesPrev = usesPrev || strings.Contains(a, "*prev ")
+			}
+		}
+		if prev == nil || !usesPrev {
+			return // the test reads the neighbouring dot itself: nothing is remembered between iterations
+		}
 		head, _ := f.LoopOf(loop)
 		body := c13LoopBody(f, loop)
-		c.Need(head != nil && body != nil, "range loop structure of NewFunc")
+		c.Need(head != nil && body != nil, "loop structure of NewFunc")
 		nSets := 0
 		for _, a := range assignsToVar(f, prev) {
 			if a.RHS == nil || a.Pt == prevSet.Pt {
@@ -503,30 +541,53 @@ func runC31(c *core.Ctx) {
 		}
 		x.roles[xp] = "x"
 		// the search loop
-		var loop *ast.RangeStmt
-		nLoops := 0
+		// a forward scan of the dot indexes: a range over f.dots, or a counted loop from 0 or 1 up to
+		// (excluding) len(dots) or len(dots)-1. What matters below is the set of indexes it visits in
+		// ascending order - every inner dot 1..len-2 - not how the loop is spelled.
+		var loops []ast.Stmt
 		f.InspectOwn(func(n ast.Node) bool {
-			switch s := n.(type) {
-			case *ast.RangeStmt:
-				if s.Tok == token.DEFINE && x.isDots(s.X) {
-					loop = s
-				}
-				nLoops++
-			case *ast.ForStmt:
-				nLoops++
+			switch n.(type) {
+			case *ast.RangeStmt, *ast.ForStmt:
+				loops = append(loops, n.(ast.Stmt))
 			}
 			return true
 		})
-		c.Need(nLoops == 1 && loop != nil && loop.Key != nil, "Get contains exactly one loop, a range over f.dots with an index variable (other search strategies are not recognised)")
-		key := varOf(f, loop.Key)
-		c.Need(key != nil, "named index variable")
+		c.Need(len(loops) == 1, "Get contains exactly one loop (the piece search)")
+		loop := loops[0]
+		it, okIt := core.IterationOf(f, loop, nil)
+		c.Need(okIt && it.Index != nil && it.Body != nil, "the search loop is a range with an index variable or a counted loop stepping by one (other search strategies are not recognised)")
+		key, val := it.Index, it.Value
 		x.roles[key] = "i"
-		var val *types.Var
-		if loop.Value != nil {
-			if val = varOf(f, loop.Value); val != nil {
-				x.elem[val] = "i"
-			}
+		if val != nil {
+			x.elem[val] = "i"
 		}
+		lo, hi := 0, ""
+		if it.Counted {
+			fs := loop.(*ast.ForStmt)
+			as, _ := fs.Init.(*ast.AssignStmt)
+			c.Need(as != nil && len(as.Rhs) == 1 && it.Bound != nil, "init clause and bound of the counted search loop")
+			switch {
+			case it.FromZero:
+			case core.IsConstInt(f.Info(), as.Rhs[0], 1):
+				lo = 1
+			default:
+				lo = -1
+			}
+			hi = x.canon(it.Bound)
+			for _, a := range assignsToVar(f, key) {
+				if it.Body.Pos() <= a.Stmt.Pos() && a.Stmt.End() <= it.Body.End() {
+					lo = -1 // the index is modified inside the body: the visited set is unknown
+				}
+			}
+		} else {
+			rs := loop.(*ast.RangeStmt)
+			c.Need(rs.Tok == token.DEFINE && x.isDots(rs.X), "the range of the search loop is f.dots")
+			hi = c31Form("0", "+ndots")
+		}
+		covers := (lo == 0 || lo == 1) && (hi == c31Form("0", "+ndots") || hi == c31Form("-1", "+ndots"))
+		c.Check(covers, "Get|search visits every inner dot", "T7 Pairing (loop)", loop.Pos(),
+			"the search visits the indexes from 0 or 1 up to len(dots)-1 or len(dots)-2 in ascending order: every inner dot 1..len-2 is a candidate",
+			"the search loop does not visit every inner dot 1..len(dots)-2 in ascending order (starts at "+fmt.Sprint(lo)+", bound "+hi+"): the first dot with X > x may be missed and x is interpolated on a piece that does not contain it")
 		// the piece index: the integer local assigned more than once
 		var piece *types.Var
 		nPiece := 0
@@ -545,7 +606,7 @@ func runC31(c *core.Ctx) {
 		c.Need(nPiece == 1, "exactly one local variable assigned more than once (the piece index)")
 		x.roles[piece] = "p"
 
-		env := &c13Env{f: f, vars: map[*types.Var]string{}, used: map[*ast.RangeStmt]bool{}, alias: map[*types.Var]bool{}, custom: x.name}
+		env := &c13Env{f: f, vars: map[*types.Var]string{}, used: map[ast.Stmt]bool{}, alias: map[*types.Var]bool{}, custom: x.name}
 		firstY, lastY := c31Form("0", "+Y[0]"), c31Form("0", "+Y[ndots-1]")
 		classify := func(reject, skip string) ([]c13Ret, int) {
 			var rets []c13Ret
@@ -587,7 +648,7 @@ func runC31(c *core.Ctx) {
 		as := assignsToVar(f, piece)
 		for i := range as {
 			a := &as[i]
-			if loop.Body.Pos() <= a.Stmt.Pos() && a.Stmt.End() <= loop.Body.End() {
+			if it.Body.Pos() <= a.Stmt.Pos() && a.Stmt.End() <= it.Body.End() {
 				set = a
 			} else {
 				init = a
@@ -599,7 +660,7 @@ func runC31(c *core.Ctx) {
 		c.Check(set.Tok == token.ASSIGN && x.canon(set.RHS) == c31Form("-1", "+i"), "Get|piece is the one left of the match", "T8 (search)", set.Stmt.Pos(), "on a match at index i the piece index becomes i-1", "the matched index i is not turned into piece i-1 (got "+x.canon(set.RHS)+"): the dots used do not bracket x")
 		head, done := f.LoopOf(loop)
 		body := c13LoopBody(f, loop)
-		c.Need(head != nil && done != nil && body != nil, "range loop structure of Get")
+		c.Need(head != nil && done != nil && body != nil, "loop structure of Get")
 		// conditions on the way from the loop body to the assignment
 		pr := preds(f)
 		var atoms []string
@@ -645,7 +706,7 @@ func runC31(c *core.Ctx) {
 		case extra != "":
 			c.Undecided("Get|match condition", "T8 (search)", set.Stmt.Pos(), "the match is additionally conditioned on `"+extra+"`, which the rule cannot show to be redundant: some dot with X > x may be passed over")
 		default:
-			c.Check(hasStrict || hasWeak && hasI, "Get|match condition", "T8 (search)", set.Stmt.Pos(), "the piece index is replaced only on the edge where X[i] > x (or X[i] >= x with i >= 1)", "the piece index is not chosen by X[i] > x for the current dot i: the interpolated dots do not bracket x")
+			c.Check(hasStrict || hasWeak && (hasI || lo == 1), "Get|match condition", "T8 (search)", set.Stmt.Pos(), "the piece index is replaced only on the edge where X[i] > x (or X[i] >= x with i >= 1)", "the piece index is not chosen by X[i] > x for the current dot i: the interpolated dots do not bracket x")
 		}
 		// first match wins, earlier dots are all tested, the range is forward over all dots
 		leaves := !c13BlocksFrom(set.Pt.B, nil, nil)[head]
